@@ -8,6 +8,7 @@ import numpy as np
 
 from vmon import boot, events
 from vmon.gen import patterns, planted, replcase
+from vmon.oracle import geometry as G
 
 PROPERTY = "C20"
 RULE = ("Differential monitor: for each generated option set the real command (click command object, run in-process with "
@@ -294,6 +295,22 @@ def run_case(case, ctx):
         built = planted.build(rng, pat, case["cell"], atol_plant, n_copies=k, crossings=[int(x) for x in rng.integers(0, 4, k)], n_bystanders=int(rng.integers(1, 6)),
                               n_distractors=0, perturb=0.3 if atol_plant == 0.3 else 0.08, min_sep=1.35)
         S = built["atoms"]
+        if case["single"] == "findonly" and case["s"] % 2 == 0:
+            # a hub: one atom bonded to three or four like neighbours, searched for as (centre, neighbour) - several matches begin
+            # with the same structure atom (a report keyed by the first atom of a match would lose them)
+            from mofun import Atoms as _Atoms
+            cm = np.array(S.cell, float)
+            d_hub = float(rng.uniform(1.5, 1.7))
+            for _try in range(60):
+                c0 = rng.uniform(0.1, 0.9, 3).dot(cm)
+                dirs = np.array([[1, 1, 1], [1, -1, -1], [-1, 1, -1], [-1, -1, 1]], float)[: int(rng.integers(3, 5))] / np.sqrt(3.0)
+                hub = np.vstack([c0[None, :], c0[None, :] + d_hub * dirs.dot(G.random_rotation(rng).T)])
+                if float(G.equal_mod_lattice(cm, np.asarray(S.positions, float), hub[:, None, :].reshape(-1, 3)[0][None, :]).min()) > 3.6 and \
+                        min(float(G.equal_mod_lattice(cm, np.asarray(S.positions, float), h[None, :]).min()) for h in hub) > 2.0:
+                    S.extend(_Atoms(elements=["P"] + ["F"] * (len(hub) - 1), positions=G.wrap(cm, hub)))
+                    pat = {"elements": ["P", "F"], "positions": np.array([[0.0, 0.0, 0.0], [d_hub, 0.0, 0.0]]), "cls": "hub_arm", "continuous_symmetry": "line"}
+                    st.count("find_only_runs_whose_matches_share_their_first_atom")
+                    break
         S.charges = np.round(rng.uniform(-1, 1, len(S)), 4)
         ortho = bool(S.cell_is_orthorhombic())
         if case["informat"] == "lmpdat" and rng.integers(2):
@@ -467,6 +484,8 @@ def requirements(stats, tier):
     both = sum(v for k, v in stats.counts.items() if k.startswith("both_raised."))
     if both > 0.1 * max(1, stats.get("cli_runs")):
         need.append("command and API pipeline both raised in %d of %d runs: too little was observed (%s)" % (both, stats.get("cli_runs"), sorted(k for k in stats.counts if k.startswith("both_raised."))))
+    if stats.get("find_only_runs_whose_matches_share_their_first_atom") < (3 if tier == "quick" else 100):
+        need.append("find-only runs whose matches share their first atom: %d" % stats.get("find_only_runs_whose_matches_share_their_first_atom"))
     if stats.get("find_only_runs") < 10:
         need.append("find-only runs: %d" % stats.get("find_only_runs"))
     return need
